@@ -103,7 +103,20 @@ def pick_cfgs(n, k, seed):
     """k configuration shards out of n, rotating with the seed so that repeated quick runs cover all"""
     if k >= n:
         return None
-    return {(seed * 7 + i * (n // k) + (seed % max(1, n // k))) % n for i in range(k)}
+    return {(seed * 7 + i * (n // k) + (seed % max(1, n // k)) + (seed // 2) % max(1, n // k)) % n for i in range(k)}
+
+
+def pick_strat(seed, per_class):
+    """reader configurations, stratified: per_class backends (rotating with the seed) for each of
+    (endianness) x (buffered over 8/16/32/64-bit words, unbuffered)"""
+    out = set()
+    for e in range(2):
+        for c in range(5):
+            nb = 6 if c < 4 else 4
+            base = e * 28 + (c * 6 if c < 4 else 24)
+            for j in range(min(per_class, nb)):
+                out.add(base + (seed + c + e + j * max(1, nb // per_class)) % nb)
+    return out
 
 
 def c01(tier, seed):
@@ -230,9 +243,10 @@ def c05(tier, seed):
     q = tier == "quick"
     units = cfg_shards("tables", "tables", NR, seed, dict(full=0 if q else 1, frac=16 if q else 1),
                        pick=pick_from(TABLE_CFGS, 10, seed) if q else set(TABLE_CFGS))
-    units += cfg_shards("eof", "eof", 14, seed + 3, dict(streams=1 if q else 4, len=16 if q else 40, cutstep=1),
-                        pick=pick_cfgs(14, 7, seed) if q else None)   # fewer bits than the index width before a strict end
-    units += cfg_shards("crossing", "crossing", 14, seed + 1, dict(), pick=pick_cfgs(14, 7, seed + 1) if q else None)
+    # fewer bits than the index width before a strict end: every strict configuration (a stride-2 pick of
+    # the 14 shards always left out the strict memory readers, which sit on odd shards)
+    units += cfg_shards("eof", "eof", 14, seed + 3, dict(streams=1 if q else 4, len=16 if q else 40, cutstep=1))
+    units += cfg_shards("crossing", "crossing", 14, seed + 1, dict())
     units += enc_table_units(tier, seed + 2)                   # encode / length tables: every entry, every option
     units += code_units("alone", tier, seed + 2, 6, 30)
     units += code_units("concat", tier, seed + 2, 6, 30)       # defaults and every table option on read
@@ -279,7 +293,7 @@ def c07(tier, seed):
 def c08(tier, seed):
     q = tier == "quick"
     units = cfg_shards("copy", "copy", NR, seed, dict(rpaths=RP, wpaths=WP, full=0 if q else 1),
-                       pick=pick_cfgs(NR, 20, seed) if q else None)
+                       pick=pick_strat(seed, 2) if q else None)      # 20 configurations: every word class, two backends each
     if not q:
         units += cfg_shards("copy-nci", "copy", NR, seed + 1, dict(rpaths=RP, wpaths=WP, full=0),
                             variant=("release", "no_copy_impls"))
